@@ -258,6 +258,51 @@ func AnalyzeStrideAll(fns []*ssa.Function) map[*ssa.Function]*StrideInfo {
 				changed = true
 			}
 		}
+		// single int results: join over the return operands
+		for _, f := range fns {
+			rs := f.Signature.Results()
+			if rs.Len() != 1 || !isIntT(rs.At(0).Type()) {
+				continue
+			}
+			si := res[f]
+			j := svBot
+			for _, b := range f.Blocks {
+				for _, in := range b.Instrs {
+					ret, ok := in.(*ssa.Return)
+					if !ok || len(ret.Results) != 1 {
+						continue
+					}
+					var v SV
+					switch x := ret.Results[0].(type) {
+					case *ssa.Const:
+						if n, isC := ConstInt(x); isC {
+							v = SV{C: n}
+						} else {
+							v = svTop
+						}
+					case *ssa.Parameter:
+						if alignedParamName(x.Name()) {
+							v = SV{Al: true}
+						} else if pvv, okp := pv[x]; okp && !pvv.Bot {
+							v = pvv
+						} else {
+							v = svTop
+						}
+					default:
+						if sv, okv := si.Val[ret.Results[0]]; okv {
+							v = sv
+						} else {
+							v = svTop
+						}
+					}
+					j = svJoin(j, v)
+				}
+			}
+			if old, ok := retVals[f]; !ok || old != j {
+				retVals[f] = j
+				changed = true
+			}
+		}
 		if !changed {
 			break
 		}
@@ -319,6 +364,9 @@ func resolveCell(addr ssa.Value) *ssa.Alloc {
 }
 
 var cellVals = map[*ssa.Alloc]SV{}
+
+// retVals: abstract value of the single int result of the functions analysed together.
+var retVals = map[*ssa.Function]SV{}
 
 func analyzeStride(fn *ssa.Function, pv map[*ssa.Parameter]SV) *StrideInfo {
 	si := &StrideInfo{Fn: fn, Val: map[ssa.Value]SV{}}
@@ -407,6 +455,12 @@ func analyzeStride(fn *ssa.Function, pv map[*ssa.Parameter]SV) *StrideInfo {
 				t := x.Call.Args[0].Type()
 				if isFlatArray(t) {
 					return SV{Al: true} // flat arrays hold whole coordinates (C01's invariant)
+				}
+			}
+			// an offset computed by a helper analysed together with this function: the join of its returns
+			if cal := x.Call.StaticCallee(); cal != nil {
+				if v, ok := retVals[cal]; ok && !v.Bot {
+					return v
 				}
 			}
 			return svTop
